@@ -47,6 +47,18 @@ def run(ctx):
              "out = nda.static_map(a, {1: 'x', 2: 'y', 5: 'z'}, default='?')", "out = nda.isin(s, ['x']) | nda.isin(s, ['y', 'z', 'w'])",
              "out = nda.static_map(s, {'k%d' % i: float(i) for i in range(12)}, default=-1.0)"]
     progs.append({"program": "out = a * ndx.pi + ndx.e", "inputs": {"a": {"dtype": "float64", "sig": ["N"]}}, "constants": {}})
+    # reading a value (repr / to_numpy / ndim / shape) before an in-place update must not change what is exported later
+    read_pairs = []
+    for body, dt in [("k[0] = 10; out = ndx.where(m, k, k2)", "nint64"), ("k[-1] = 7; out = ndx.where(m, k, k2) + k", "nint64"),
+                     ("k[0] = 2.5; out = [ndx.where(m, k, k2), k * 2]", "nfloat64"), ("k.null[1] = True; out = ndx.where(m, k, k2)", "nint64"),
+                     ("k[0] = 10; out = ndx.where(m, k, k2)", "int64"), ("k += 1; out = ndx.where(m, k, k2)", "nint64")]:
+        base_t = ops.tensor(rnd, dt, [3], "small")
+        consts = {"k": base_t, "k2": base_t}
+        inp = {"m": {"dtype": "bool", "sig": [3]}}
+        ia = len(progs)
+        progs.append({"program": body, "inputs": inp, "constants": consts})
+        progs.append({"program": "r_ = (repr(k), k.to_numpy(), k.ndim, k.shape, str(k2)); " + body, "inputs": inp, "constants": consts})
+        read_pairs.append((ia, ia + 1))
     for kp in KEYED:
         progs.append({"program": kp, "inputs": {"s": {"dtype": "utf8", "sig": ["N"]}, "a": {"dtype": "int64", "sig": ["N"]}}, "constants": {}})
     n = len(progs)
@@ -103,6 +115,14 @@ def run(ctx):
                 raw_same += 1
             else:
                 raw_diff += 1
+    for ia, ib in read_pairs:
+        a_, b_ = base.get(f"base-{ia}") or {}, base.get(f"base-{ib}") or {}
+        if "ok" in a_ and "ok" in b_ and a_["ok"]["canon"] != b_["ok"]["canon"]:
+            ctx.finding({"func": "build", "kind": "read-dependent", "program": progs[ia]["program"][:40]},
+                        f"`{progs[ia]['program']}`: reading the array's value / metadata before the update changes the exported model", {"without_read": progs[ia], "with_read": progs[ib]})
+        elif ("ok" in a_) != ("ok" in b_):
+            ctx.finding({"func": "build", "kind": "read-dependent", "program": progs[ia]["program"][:40]},
+                        f"`{progs[ia]['program']}`: traces only {'without' if 'ok' in a_ else 'with'} a preceding read of the array", {"without_read": progs[ia], "with_read": progs[ib], "outcomes": [str(a_)[:200], str(b_)[:200]]})
     ctx.coverage["raw_bytes_identical"] = raw_same
     ctx.coverage["raw_bytes_differ_but_canonical_equal"] = raw_diff
     ctx.sample({"program": progs[0]["program"], "inputs": progs[0]["inputs"], "history_example": hist_cases[0]["history"]})
